@@ -160,6 +160,7 @@ def domain_pass(ctx, cases, impl, handlers, theorem, accepted=("Replaced", "Rewr
     return counts
 
 
+DEFAULT_HANDLERS = ["ar", "jar", "javadoc", "gzip", "pyc", "zip"]
 FUTURE_EPOCH = 4000000000          # later than the clock of any run of these checks: accepted with a warning, and an epoch like any other
 
 
@@ -208,7 +209,23 @@ def cli_pass(ctx, cases, impl, handler, ext, max_good=8, max_bad=4, max_noop=3):
       nfiles += 1 + len(bad) + len(good) + len(noop)
       chosen_all[gkey] = bad + good + noop
       configs = [("serial", []), ("-j1", ["-j1"]), ("-j3", ["-j3"]), ("LIMIT", [])] if gkey == best else [("serial", []), ("-j2", ["-j2"])]
+      if gkey == best:
+          # the same selection spelled as "every default handler but this one switched off"; the handler together with one that comes
+          # before it in the table, extensions ignored (the other one refuses every file, this one still has to act); another time zone
+          if handler in DEFAULT_HANDLERS:
+              configs.append(("NEGATIVE -j2", ["-j2"]))
+          if handler != "ar":
+              configs.append(("IGNORE-EXTENSION", ["--ignore-extension"]))
+          configs.append(("TZ=Asia/Tokyo -j1", ["-j1"]))
       for label, opts in configs:
+        hsel = ["--handler", handler]
+        env_extra = None
+        if label.startswith("NEGATIVE"):
+            hsel = ["--handler=" + ",".join("-" + h for h in DEFAULT_HANDLERS if h != handler)]
+        elif label.startswith("IGNORE-EXTENSION"):
+            hsel = ["--handler", "ar," + handler]
+        elif label.startswith("TZ="):
+            env_extra = {"TZ": "Asia/Tokyo"}
         label = "%s SOURCE_DATE_EPOCH=%s" % (label, epoch)
         t = fh.Tree()
         try:
@@ -228,7 +245,7 @@ def cli_pass(ctx, cases, impl, handler, ext, max_good=8, max_bad=4, max_noop=3):
             # a second name, which no handler claims, for the last modified input: listed before it, so the inode is seen first under
             # the other name (not in the run with a size limit: a file with two names is rewritten in place)
             changed = [r for r in order if expect[r] != inputs[r]]
-            if changed and not label.startswith("LIMIT"):
+            if changed and not label.startswith("LIMIT") and not label.startswith("IGNORE-EXTENSION"):    # (with extensions ignored no name is unclaimed)
                 alias = "00-other-name-of-%s.bin" % os.path.basename(changed[-1])[:2]
                 t.link(changed[-1], alias)
                 order.insert(1, alias)
@@ -240,13 +257,13 @@ def cli_pass(ctx, cases, impl, handler, ext, max_good=8, max_bad=4, max_noop=3):
                 srel = os.path.join(d, ".#." + b + ".tmp")
                 t.add_file(srel, b"STALE-TEMPORARY-DATA " * ((len(expect[rel]) + 4096) // 21 + 1))
                 stale.append(srel)
-            args = opts + ["--handler", handler] + [t.path(r) for r in order if not r.startswith("sub/")] + [t.path("sub")] * (1 if any(r.startswith("sub/") for r in order) else 0)
+            args = opts + hsel + [t.path(r) for r in order if not r.startswith("sub/")] + [t.path("sub")] * (1 if any(r.startswith("sub/") for r in order) else 0)
             limit = None
             if label.startswith("LIMIT"):
                 # writes cut short: no file may grow beyond half the size of the largest output; what cannot be written completely stays as it was
                 limit = max(1, max([len(v) for r, v in expect.items() if v != inputs[r]] or [2]) // 2)      # of the outputs that are written
                 label = label.replace("LIMIT", "serial, files limited to %d bytes," % limit)
-            rc, out = fh.run_cli(args, epoch=epoch, timeout=180, fsize_limit=limit)
+            rc, out = fh.run_cli(args, epoch=epoch, timeout=180, fsize_limit=limit, env_extra=env_extra)
             if rc == 124:
                 problems.append((label, "the run did not come back", order, None, gkey))
                 continue
